@@ -844,7 +844,8 @@ func genC14() {
 				return true
 			}
 			ia, ok := is.Init.(*ast.AssignStmt)
-			if !ok || len(ia.Lhs) != 1 || len(ia.Rhs) != 1 || c14Text(ia.Rhs[0]) != recv+".find("+ixs+")" {
+			if !ok || len(ia.Lhs) != 1 || len(ia.Rhs) != 1 ||
+				(c14Text(ia.Rhs[0]) != recv+".find("+ixs+")" && c14Text(ia.Rhs[0]) != recv+".find("+ixs+", "+byArch+")") {
 				return true
 			}
 			d := c14Ident(ia.Lhs[0])
@@ -862,7 +863,7 @@ func genC14() {
 			d := l[0]
 			filled := false
 			ast.Inspect(dg.Body, func(n ast.Node) bool {
-				if es, ok := n.(*ast.ExprStmt); ok && c14Text(es.X) == recv+".fill("+ixs+", "+d+")" {
+				if es, ok := n.(*ast.ExprStmt); ok && (c14Text(es.X) == recv+".fill("+ixs+", "+d+")" || c14Text(es.X) == recv+".fill("+ixs+", "+byArch+", "+d+")") {
 					filled = true
 				}
 				return true
@@ -911,6 +912,8 @@ func genC14() {
 			fail("%s: disqualifyCache.Get: key = concatenation of the map's values sorted by Name(), looked up by index OBJECT in a trie, hit returns a clone, miss computes disqualifyDifference and fills — not recognised (concat=%v sort=%q hit=%v miss=%v trie=%q by-object=%v)", caches, ixs != "", sortBy, hit, miss, trie, byObj)
 		}
 		add("dq-cache-key", "concatenation of the map's values, sorted by Name(), compared by index object")
+		// what a node of the trie holds (one entry per grouping since fix 3541d7b): described, not refused (gen_c08.go)
+		add("dq-cache-node", strings.Join(c08DqNode(), "; "))
 		add("dq-cache-hit", "a clone of the stored set")
 		add("dq-cache-miss", "disqualifyDifference of the call's own map, stored under the key")
 	}
